@@ -35,7 +35,17 @@ def render_file(lang: str, shapes: list[dict], salt: int):
         for st, _, layout, s, name in parts:
             classes.append(dict(s, **layout, line=len(lines) + 1, name=name))
             lines += st
-        for _, im, _, _, _ in parts:
+        # the second impl block of a split struct comes after every other struct's blocks
+        # (impl A / impl B / impl A: the blocks of one struct are not adjacent)
+        later = []
+        for _, im, _, _, name in parts:
+            cut = next((i for i in range(1, len(im)) if im[i - 1] == "" and im[i] == f"impl {name} {{"), None)
+            if cut is None:
+                lines += im + [""]
+            else:
+                lines += im[:cut - 1] + [""]
+                later.append(im[cut:])
+        for im in later:
             lines += im + [""]
         return "\n".join(lines) + "\n", classes
     for i, sh in enumerate(shapes):
